@@ -143,7 +143,7 @@ pub fn value_spellings() -> Vec<(&'static str, Vec<&'static str>)> {
         ),
         ("series", vec!["1,2,3", "1", "1,,2", "", ",", "1:30,2:15:30W", "1,2,abc", "1e2,-0.5,+.25", "1 ,2", "1, 2", "1,2,"]),
         ("text", vec!["abc", "", "a,b", "a:b", "\u{e6}\u{f8}\u{e5}", "$q", "(d)", "=x"]),
-        ("names", vec!["a,b", " a , b ", "", "a,,b", "a"]),
+        ("names", vec!["a,b", " a , b ", "", "a,,b", "a", "a,b,", ",a", ",", "a,", "a, ,b", "@x,y,@null"]),
     ]
 }
 
@@ -152,9 +152,16 @@ pub fn generate(g: &mut Gen, thorough: bool) {
     let n = if thorough { 20000 } else { 1500 };
     for _ in 0..n {
         let nmac = g.rng.below(4);
-        let w: World = make_world(&mut g.rng, nmac);
+        let mut w: World = make_world(&mut g.rng, nmac);
         let len = 1 + g.rng.below(6);
         let mut steps = random_steps(&mut g.rng, &w, len);
+        // macros taking arguments: the arguments reach the body wherever the modifiers of the step stand
+        w.resources.push(("m:shift".to_string(), "helmert x=$east y=$north(1)".to_string()));
+        if g.rng.chance(1, 3) {
+            let core = *g.rng.pick(&["m:shift east=5", "m:shift east=-2 north=3"]);
+            let at = g.rng.below(steps.len() + 1);
+            steps.insert(at, StepSpec { core: core.to_string(), inv: g.rng.chance(1, 2), omit_fwd: g.rng.chance(1, 4), omit_inv: g.rng.chance(1, 4) });
+        }
         // parameters with index suffixes, so that the subscript spelling has something to do
         if g.rng.chance(1, 2) {
             steps.push(StepSpec::plain("add2 lon_0=9 x_0=500000 k_0=0.9996 lat_0=0"));
@@ -230,6 +237,10 @@ pub fn generate(g: &mut Gen, thorough: bool) {
                 }
             }
         }
+    }
+    // a list of texts holds exactly the elements written, the empty ones at either end included
+    for v in ["a,b", "a,b,", ",a", ",", "a,", "a,,b", "", "a", "test.datum,", "@x,y,@null", " a , b "] {
+        g.push(format!("S_C16N\t{}", crate::wire::escape(v)), "oracle-text-lists", true);
     }
     // a series with an unparsable or empty element is refused as a whole
     for def in [
